@@ -3,6 +3,7 @@ package props
 import (
 	"bytes"
 	"fmt"
+	"io"
 	"strings"
 
 	"github.com/fluhus/biostuff/formats/fasta"
@@ -332,7 +333,7 @@ func runC01(r *core.Run) {
 		var out []marshaller
 		for _, rc := range []faRec{{"a", "ACGT"}, {"", ""}, {"longer name", core.S(longSeq(170))}, {">", "A"}, {"b", core.S(longSeq(80))}, {"c c", core.S(longSeq(81))}} {
 			f := &fasta.Fasta{Name: rc.Name.B(), Sequence: rc.Seq.B()}
-			out = append(out, marshaller{fmt.Sprintf("{%q, %d bases}", rc.Name, len(rc.Seq)), f.MarshalText, func(w *bytes.Buffer) error { return f.Write(w) }})
+			out = append(out, marshaller{fmt.Sprintf("{%q, %d bases}", rc.Name, len(rc.Seq)), f.MarshalText, func(w *bytes.Buffer) error { return f.Write(w) }, func(w io.Writer) error { return f.Write(w) }})
 		}
 		return out
 	})
